@@ -45,7 +45,7 @@ def nontrivial(run, m):
 
 def make_base(job, case, m, seed):
     run = explore.make_run(case, [], model=m)
-    ctl = dict(req=0.06, max_req=3, early_render=0.6)
+    ctl = dict(req=0.06, max_req=3, early_render=job.get("early_render", 0.6))
     inj = workloads.Injector(h64(job.get("gseed", 0), seed, "inj"), ctl)
     pol = explore.Policy(pseed=h64(job.get("gseed", 0), seed, "p"), lazy_pct=[0, 50][seed % 2], render=True)
     explore.run_free(run, pol, hook=inj)
@@ -97,16 +97,55 @@ def crash_case(job):
     return out
 
 
+def gen_late(rng):
+    """parallel branches; one fails at once (workflow failed while the others run); the output variable exists only
+    once a surviving branch has published it"""
+    from ovf.gen import defs
+    m = defs.Model()
+    m.vars = [("x", "init.x")]
+    k = rng.randint(2, 4)
+    for i in range(k):
+        s = defs.Task("s%d" % i)
+        m.tasks[s.name] = s
+    for i in range(k):
+        s = m.tasks["s%d" % i]
+        lang = rng.choice(["yaql", "jinja"])
+        if i == 0:
+            continue  # s0 fails with no handler
+        pubs = [("w", ("lit", "%s.w" % s.name))] if rng.random() < 0.75 else []
+        if rng.random() < 0.5:
+            nxt = defs.Task("n%d" % i)
+            m.tasks[nxt.name] = nxt
+            s.trans.append(defs.Tr(0, cond=("succeeded",), lang=lang, pubs=pubs, do=[nxt.name]))
+            if rng.random() < 0.6:
+                nxt.trans.append(defs.Tr(0, cond=rng.choice([None, ("succeeded",)]), lang=lang,
+                                         pubs=[("w", ("cat", "x", "|%s" % nxt.name))], do=rng.choice([["noop"], [], ["continue"]])))
+        else:
+            s.trans.append(defs.Tr(0, cond=rng.choice([None, ("succeeded",)]), lang=lang, pubs=pubs or [("x", ("cat", "x", "|p"))],
+                                   do=rng.choice([["noop"], [], ["continue"]])))
+    m.output = [("w", ("ref", "w"), rng.choice(["yaql", "jinja"]))]
+    if rng.random() < 0.3:
+        m.output.append(("x", ("ref", "x"), "yaql"))
+    defs._tag(m)
+    m.tags.add("latevar")
+    return m, {}
+
+
 def crash_twin(job):
     out = dict(evaluations=0, nontrivial=set(), violations=[], samples=[], counters={}, sets={})
     C = out["counters"]
     for seed in range(job["lo"], job["hi"]):
-        m, inputs = workloads.gen_case(job, seed)
+        if job.get("gen") == "late":
+            m, inputs = gen_late(random.Random("%s/%s/late" % (job.get("gseed", 0), seed)))
+        else:
+            m, inputs = workloads.gen_case(job, seed)
         wf = m.render()
         if not workloads.inspect_ok(wf):
             C["definitions_rejected_by_inspection"] = C.get("definitions_rejected_by_inspection", 0) + 1
             continue
-        case = dict(wf=wf, inputs=inputs, oseed=h64(job.get("gseed", 0), seed, "o") % 100000, p_fail=0.2)
+        case = dict(wf=wf, inputs=inputs, oseed=h64(job.get("gseed", 0), seed, "o") % 100000, p_fail=job.get("p_fail", 0.2))
+        if job.get("gen") == "late":
+            case["overrides"] = {"s0/None/0/None": ["failed", None]}
         script = make_base(job, case, m, seed)
         C["base_histories"] = C.get("base_histories", 0) + 1
         n = len(script)
@@ -124,8 +163,13 @@ def crash_twin(job):
 
 def jobs(tier, seed):
     P = dict(p_intjoin=0.3, p_items=0.25, p_retry=0.2, p_latevar=0.4)
-    return batches("crash_twin", scale(tier, 120, 2500), scale(tier, 6, 40), gen="mix", p_loop=0.3, P=P, gseed=seed,
-                   all_singles_upto=scale(tier, 12, 30), singles=scale(tier, 6, 16), subsets=scale(tier, 2, 6), name="crash-twin")
+    js = batches("crash_twin", scale(tier, 100, 2500), scale(tier, 6, 40), gen="mix", p_loop=0.3, P=P, gseed=seed,
+                 all_singles_upto=scale(tier, 12, 30), singles=scale(tier, 6, 16), subsets=scale(tier, 2, 6), name="crash-twin")
+    # output that exists only once a late branch has published it, rendered as soon as the workflow is completed
+    # (while other actions are still in flight) and again at the end
+    js += batches("crash_twin", scale(tier, 80, 1500), scale(tier, 8, 40), gen="late", gseed=seed + 1, p_fail=0.05, early_render=1.0,
+                  all_singles_upto=scale(tier, 14, 30), singles=scale(tier, 6, 16), subsets=scale(tier, 1, 4), name="late-output")
+    return js
 
 
 def reach(m):
